@@ -45,16 +45,18 @@ CHECK_DEADLOCK FALSE
 BODY = {"": b"", "a": b"int x;\n", "b": b"int y;\n", "ab": b"int x;\n\n", "A": b"int X;\n"}
 
 
-def materialise(case, d):
-    """the code base consists of TWO directories, d and d + "-legacy" (the first a character prefix of the second)"""
+def materialise(case, d, two_dirs=False):
+    """two_dirs: the code base consists of TWO directories, d and d + "-legacy" (the first a character prefix of
+    the second)"""
     paths = {}
     subdirs = ["", "lib", "lib/deep", "src"]
-    os.makedirs(d + "-legacy", exist_ok=True)
+    if two_dirs:
+        os.makedirs(d + "-legacy", exist_ok=True)
     for i, f in enumerate(case["files"], start=1):
         k = f["kind"]
         sub = "excl" if k == "excl" else subdirs[i % len(subdirs)]
         ext = ".txt" if k == "nosrc" else (".c" if i % 2 else ".h")
-        p = os.path.join(d if (i // 2) % 2 == 0 else d + "-legacy", sub, f"f{i}{ext}")
+        p = os.path.join(d if (not two_dirs or (i // 2) % 2 == 0) else d + "-legacy", sub, f"f{i}{ext}")
         os.makedirs(os.path.dirname(p), exist_ok=True)
         if k == "sym":
             os.symlink(paths[f["target"]], p)
@@ -92,7 +94,7 @@ def check_chunk(args):
         try:
             root = os.path.join(d, "root")
             os.makedirs(root)
-            paths = materialise(case, root)
+            paths = materialise(case, root, two_dirs=True)
             inv = {os.path.abspath(p): i for i, p in paths.items()}
             want = {frozenset(g) for g in case["groups"]}
             if want:
